@@ -183,6 +183,16 @@ def bind_lets(stmts, env):
                     if nm:
                         env.vars[nm] = env.sym(ax)
                 continue
+            if p.get("k") == "PStruct" and init is not None:
+                # `let Sphere { center, radius: r } = v;` names v.center and v.radius
+                for f in p.get("fields", []):
+                    b = A.binding_name(f["pat"])
+                    if b:
+                        try:
+                            env.vars[b] = to_sym({"k": "Field", "e": init, "member": f["name"]}, env)
+                        except Untranslatable:
+                            env.vars.pop(b, None)
+                continue
             nm = A.binding_name(p)
             if nm and init is not None:
                 try:
